@@ -2,6 +2,8 @@ package props
 
 import (
 	"fmt"
+	"go/ast"
+	"go/types"
 	"regexp"
 	"strings"
 
@@ -12,7 +14,7 @@ import (
 
 func init() { Registry["C19"] = runC19 }
 
-const explanationC19 = "Decides structural necessary conditions of C19 on the request-ID, trace, sampler and capture middlewares through SSA path tables: (R19.1) on every path the downstream handler/invoker receives the context derived by GenerateRequestID / WithSpan / setTrace (HTTP, gRPC unary and stream); (R19.2) request-ID selection — the inbound value is consulted only under the trust flag, truncated to id[:limit] only under limit>0 ∧ len>limit, replaced by a fresh ID iff absent or empty, and stored under RequestIDKey; the HTTP and gRPC front-ends read the header/metadata only under the trust flag; (R19.3) trace extraction and injection tables mirror each other (TraceID header/metadata ↔ TraceIDKey, caller's span ↔ parent span, fresh span from the span function, WithSpan stores each argument under its own key); (R19.4) the sampler and discard list are consulted only when no inbound trace ID exists; (R19.6) the fixed sampler's 0 and 100 rows do not consult the RNG, NewSampler picks adaptive iff maxSamplingRate>0 with (rate,size) in order; (R19.7) ResponseCapture stores the status it forwards, adds the byte count the underlying writer returned, and records the implicit 200; (R19.8) every option constructor stores its argument into its own field. NOT decided: uniqueness/non-emptiness of generated IDs as values, sampling statistics, chains of calls at run time."
+const explanationC19 = "Decides structural necessary conditions of C19 on the request-ID, trace, sampler and capture middlewares through SSA path tables: (R19.1) on every path the downstream handler/invoker receives the context derived by GenerateRequestID / WithSpan / setTrace (HTTP, gRPC unary and stream); (R19.2) request-ID selection — the inbound value is consulted only under the trust flag, truncated to id[:limit] only under limit>0 ∧ len>limit, replaced by a fresh ID iff absent or empty, and stored under RequestIDKey; the HTTP and gRPC front-ends read the header/metadata only under the trust flag; (R19.3) trace extraction and injection tables mirror each other (TraceID header/metadata ↔ TraceIDKey, caller's span ↔ parent span, fresh span from the span function, WithSpan stores each argument under its own key); (R19.4) the sampler and discard list are consulted only when no inbound trace ID exists; (R19.6) the fixed sampler's 0 and 100 rows do not consult the RNG, NewSampler picks adaptive iff maxSamplingRate>0 with (rate,size) in order; (R19.7) ResponseCapture stores the status it forwards, adds the byte count the underlying writer returned, and records the implicit 200; (R19.8) every option constructor stores its argument into its own field; (R19.9) a wrapped server stream carries a context derived from the wrapped stream's own context; (R19.10) the shutdown sweep of the stream canceler visits every in-flight stream. NOT decided: uniqueness/non-emptiness of generated IDs as values, sampling statistics, chains of calls at run time."
 
 func anon(fn *ssa.Function, idx ...int) *ssa.Function {
 	for _, i := range idx {
@@ -65,6 +67,8 @@ func runC19(c *an.Ctx) string {
 	r19Samplers(c)
 	r19Capture(c)
 	r19Options(c)
+	r19StreamContext(c)
+	r207RangeAll(c, "R19.10") // shutdown cancels every in-flight stream (shared with C20/R20.7)
 	return explanationC19
 }
 
@@ -799,4 +803,87 @@ func r19Options(c *an.Ctx) {
 		ok := t != nil && len(t.Paths) == 1 && len(t.Paths[0].Ret) == 1 && t.Paths[0].Ret[0] == w[2]
 		c.Check(ok, rule, f.Name+"#forward", f.Decl.Pos(), "forwards to "+w[2], "wrapper does not simply forward to "+w[2])
 	}
+}
+
+// r19StreamContext (R19.9): a server stream wrapped for the downstream handler
+// carries a context derived from the wrapped stream's own context
+// (ss.Context()): the identifiers the upstream interceptors stored, and the
+// inbound metadata, live there. A context that derives from anything else (the
+// interceptor constructor's shutdown context, context.Background()) loses them.
+func r19StreamContext(c *an.Ctx) {
+	const rule = "R19.9"
+	n := 0
+	for _, dir := range []string{"grpc/middleware", "grpc/middleware/xray"} {
+		for _, f := range c.AllFuncs(dir) {
+			info := f.Pkg.TypesInfo
+			// definitions of every local
+			defs := map[types.Object][]ast.Expr{}
+			ast.Inspect(f.Decl.Body, func(nd ast.Node) bool {
+				as, ok := nd.(*ast.AssignStmt)
+				if !ok {
+					return true
+				}
+				for i, l := range as.Lhs {
+					o := an.ObjOf(info, l)
+					if o == nil {
+						continue
+					}
+					if len(as.Rhs) == len(as.Lhs) {
+						defs[o] = append(defs[o], as.Rhs[i])
+					} else if len(as.Rhs) == 1 && i == 0 {
+						defs[o] = append(defs[o], as.Rhs[0]) // first result of a multi-value call
+					} else if len(as.Rhs) == 1 {
+						defs[o] = append(defs[o], nil)
+					}
+				}
+				return true
+			})
+			ast.Inspect(f.Decl.Body, func(nd ast.Node) bool {
+				call, ok := nd.(*ast.CallExpr)
+				if !ok || !strings.HasSuffix(an.CalleeName(info, call), "grpc/middleware.NewWrappedServerStream") || len(call.Args) != 2 {
+					return true
+				}
+				n++
+				ssObj := an.ObjOf(info, call.Args[1])
+				seen := map[types.Object]bool{}
+				var derives func(e ast.Expr) bool
+				derives = func(e ast.Expr) bool {
+					switch x := an.Unparen(e).(type) {
+					case nil:
+						return false
+					case *ast.Ident:
+						o := an.ObjOf(info, x)
+						if o == nil || seen[o] {
+							return o != nil
+						}
+						seen[o] = true
+						ds := defs[o]
+						if len(ds) == 0 {
+							return false // a parameter or captured variable: not the stream's context
+						}
+						for _, d := range ds {
+							if d == nil || !derives(d) {
+								return false
+							}
+						}
+						return true
+					case *ast.CallExpr:
+						if sel, ok := x.Fun.(*ast.SelectorExpr); ok && sel.Sel.Name == "Context" && len(x.Args) == 0 && an.ObjOf(info, sel.X) == ssObj && ssObj != nil {
+							return true
+						}
+						if len(x.Args) > 0 {
+							if t := info.TypeOf(x.Args[0]); t != nil && t.String() == "context.Context" {
+								return derives(x.Args[0])
+							}
+						}
+					}
+					return false
+				}
+				c.Check(derives(call.Args[0]), rule, fmt.Sprintf("%s#NewWrappedServerStream(%s)", f.Name, an.Src(c.Fset, call.Args[0])), call.Pos(),
+					"the wrapped stream's context derives from the stream's own context", "the context given to the wrapped stream does not derive from "+an.Src(c.Fset, call.Args[1])+".Context(): request ID, trace identifiers and inbound metadata stored by upstream interceptors are lost to the handler")
+				return true
+			})
+		}
+	}
+	c.Floor(rule, n, 3, "wrapped server streams in the gRPC middlewares")
 }
